@@ -113,6 +113,19 @@ def run_shard(rec):
                     continue
                 go(cx, ('static-' + form, ename, cname), trace=(idx % 4 == 0),
                    inputs=ins if cname in ('alone', 'seq-tail', 'alt2') else ins_small)
+    # --- bounded repetition of elements that cannot fail (they match the empty string once the input
+    #     runs out): the count is still honoured
+    NULLABLE = {'opt': ('opt', ('str', 'a')), 'star': ('star', ('str', 'a')), 'optseq': ('opt', ('seq', [('str', 'a'), ('str', 'b')])),
+                'py': ('py', "'x'"), 'nullregex': ('re', 'a?', False), 'refopt': ('ref', 'N')}
+    for form, m, n in bound_forms():
+        if n is None:
+            continue
+        for ename, e in NULLABLE.items():
+            x = ('rep', e, m, n)
+            for cname, cx in (('alone', x), ('seq-tail', ('seq', [x, REST])), ('alt', ('alt', [('seq', [x, ('str', '!')]), REST]))):
+                idx += 1
+                if rec.mine(idx):
+                    go(cx, ('static-nullable-' + form, ename, cname), extra_rules={'N': ('opt', ('str', 'a'))}, inputs=ins_small)
     # --- bounds written with different digit counts ({2,10}: the bounds arrive as text)
     wide_inputs = ['a' * k + t for k in range(0, 14) for t in ('', 'b', ',')]
     for m, n in [(2, 10), (9, 12), (10, 11), (0, 10), (10, None), (None, 10), (12, 12), (1, 100), (9, 10)]:
